@@ -694,11 +694,45 @@ func genAddress() {
 	c := load(filepath.Join(iotaGoDir(), "consts"))
 	g.def("hashTrytesSize", "Int", c.intConst("HashTrytesSize"))
 	g.def("tritsPerTryte", "Int", c.intConst("TritsPerTryte"))
-	g.src(m, "Encode", "Decode")
-	gd := load(filepath.Join(iotaGoDir(), "guards"))
-	g.src(gd, "IsTrytesOfExactLength")
+	// migration.Encode / Decode and guards.IsTrytesOfExactLength are translated as code (genMigration → Gen/Migration.lean),
+	// not pinned by text; everything else pkg/migration declares stays in rest_migration
+	for _, n := range migrationFns {
+		pinnedFns[m.method(n)] = true
+	}
 	g.rest(p, "address")
 	g.rest(m, "migration")
+	g.write()
+}
+
+// the functions of pkg/migration that genMigration translates as code
+var migrationFns = []string{"Encode", "Decode"}
+
+// genMigration: pkg/migration/migration.go (Encode, Decode) translated as code together with what it calls in the pinned
+// iota.go: guards.IsTrytesOfExactLength and, of encoding/b1t6, EncodedLen / EncodeToTrytes / DecodeTrytes with the
+// functions of that package they call (to be tied to the model in Iota/Tie); none of them is pinned by text.  The two
+// functions of iota.go's trinary package that b1t6 calls are the ones genB1T6 translates into Gen/B1T6.lean (namespace
+// trinary there, with the lookup tables they read): they are not generated a second time, the file imports Gen/B1T6.lean
+// and opens exactly these two names.  What the translation does not define is a PARAMETER of the generated functions:
+// blake2b_Sum256, the library function golang.org/x/crypto/blake2b.Sum256 (arrHeaderText states what is assumed about it).
+// The constants of pkg/migration and of consts that the code uses are compiled into it by go/types; they are also
+// recorded in Gen/Address.lean (migPrefix, migSuffix, migChecksumSize, migAddressSize, hashTrytesSize, tritsPerTryte,
+// rest_migration).
+func genMigration() {
+	m := repoPkg("pkg/migration")
+	tri := load(filepath.Join(iotaGoDir(), "trinary"))
+	ig := load(filepath.Join(iotaGoDir(), "encoding", "b1t6"))
+	gd := load(filepath.Join(iotaGoDir(), "guards"))
+	g := newGenHdr("Migration", loopHeaderText+flowHeaderText+recvHeaderText+callHeaderText+strsHeaderText+arrHeaderText, "Iota.Model.GoBits", "Iota.Gen.B1T6")
+	// the same call as in genB1T6: it registers the signatures of the trinary functions for the callers below (the text it
+	// returns is the one in Gen/B1T6.lean and is not written again)
+	triFns := []string{"MustPutTryteTrits", "MustTritsToTryteValue", "MustTryteValueToTryte", "MustTryteToTryteValue"}
+	translateLoopFuncsNS(tri, "trinary", triFns...)
+	g.raw("-- iota.go's trinary.MustTryteValueToTryte / MustTryteToTryteValue: the translations in Iota/Gen/B1T6.lean\n")
+	g.raw("open Iota.Gen.B1T6 (trinary.MustTryteValueToTryte trinary.MustTryteToTryteValue)\n\n")
+	g.raw(translateLoopFuncsNS(gd, "guards", "IsTrytesOfExactLength"))
+	// the iota.go copy of b1t6 (genB1T6 records in iotaGoCopyIdentical whether its text equals that of the repository's own copy)
+	g.raw(translateLoopFuncsNS(ig, "iotago_b1t6", "EncodedLen", "DecodedLen", "encodeGroup", "decodeGroup", "EncodeToTrytes", "DecodeTrytes"))
+	g.raw(translateLoopFuncsNS(m, "migration", migrationFns...))
 	g.write()
 }
 
